@@ -82,6 +82,8 @@ type Canon struct {
 	typeByName map[string]*types.TypeName // pkg + "." + name
 	funcByName map[string]*types.Func     // pkg + "." + recv + "." + name
 	Renamed    []string                   // human-readable log of non-identity matches
+	// inBase: the function corresponds to a baseline declaration (same name, or matched)
+	inBase map[*types.Func]bool
 }
 
 func exported(name string) bool { return name != "" && name[0] >= 'A' && name[0] <= 'Z' }
@@ -475,8 +477,12 @@ func (p *Program) buildCanon() (*Canon, error) {
 		cur[keyOf(f)] = true
 	}
 	usedF := map[*baseFunc]bool{}
+	c.inBase = map[*types.Func]bool{}
 	for _, f := range fns {
 		k := keyOf(f)
+		if _, known := baseFuncs[k]; known {
+			c.inBase[f] = true
+		}
 		if _, known := baseFuncs[k]; known || exported(f.Name()) {
 			continue
 		}
@@ -509,6 +515,7 @@ func (p *Program) buildCanon() (*Canon, error) {
 		}
 		if pick != nil {
 			usedF[pick] = true
+			c.inBase[f] = true
 			c.funcName[f] = pick.Name
 			c.Renamed = append(c.Renamed, fmt.Sprintf("func %s is baseline %s", f.FullName(), pick.Name))
 		}
@@ -604,6 +611,10 @@ func (p *Program) installCanon() {
 			return n
 		}
 		return f.Name()
+	}
+	an.NewDeclHook = func(f *types.Func) bool {
+		_, declared := c.funcName[f]
+		return declared && !c.inBase[f]
 	}
 	an.GlobalNameHook = func(o types.Object) string {
 		if n, ok := c.varName[o]; ok {
